@@ -1244,7 +1244,8 @@ func Hydro(horizon int, g *GlobalVarsMain, local *InputSharedVars, hPath *HFileP
 
 			g.WUMAX[horizonIndex] = ValAsFloat(wa[31:33], hyparName, wa)
 			if horizon == 1 {
-				calcWRed(g.LIM[horizonIndex]*100, local.FK[horizonIndex]*100, g)
+				// same stone factor as W and WMIN of the top layer (see Input)
+				calcWRed(g.LIM[horizonIndex]*100*(1-g.STEIN[horizonIndex]), local.FK[horizonIndex]*100*(1-g.STEIN[horizonIndex]), g)
 			}
 			break
 		}
